@@ -111,7 +111,7 @@ func genBurst(r *rand.Rand, l model.Labels, tag string) []scen.PostSpec {
 // worker.recv yield point with random sleeps, so that different workers finish out of order.
 func TestVirtualTimeBursts(t *testing.T) {
 	run := vf.Cur()
-	sub := run.Sub("virtual-time-bursts", "real app in virtual time, group_wait 1h (nothing flushes), routes putting one alert into 1-3 groups; per label set bursts of 2-5 versions (refresh/resolve/re-fire, unique annotation v=<set>/<seq>) submitted 1 ms apart through POST /api/v2/alerts (every fourth by a client that hangs up right after sending: request context already cancelled) while ingestion workers are held at the worker.recv yield point for random 0-6 ms (even cases) or until the next multiple of 4 ms, so that the workers holding the versions of one burst resume at the same instant and insert concurrently (odd cases); after each burst has been processed GET /alerts/groups must show, in every group of the label set, the last submitted version (or nothing if that version is resolved); non-trivial = at least one burst in which a worker was held; distinct by (seed)", 30)
+	sub := run.Sub("virtual-time-bursts", "real app in virtual time, group_wait 1h (nothing flushes), routes putting one alert into 1-3 groups; per label set bursts of 2-5 versions (refresh/resolve/re-fire, unique annotation v=<set>/<seq>) submitted 1 ms apart through POST /api/v2/alerts (every fourth by a client that hangs up right after sending: request context already cancelled; every sixth in one batch with an alert that fails validation, answered 400 but stored all the same) while ingestion workers are held at the worker.recv yield point for random 0-6 ms (even cases) or until the next multiple of 4 ms, so that the workers holding the versions of one burst resume at the same instant and insert concurrently (odd cases); after each burst has been processed GET /alerts/groups must show, in every group of the label set, the last submitted version (or nothing if that version is resolved); non-trivial = at least one burst in which a worker was held; distinct by (seed)", 30)
 	n := run.N(300, 15000)
 	vf.Parallel(t, n, 16, func(t *testing.T, i int) {
 		r := sub.Rand(i)
@@ -163,7 +163,20 @@ func TestVirtualTimeBursts(t *testing.T) {
 						pa.EndsAt = &e
 						// every fourth submission comes from a client that hangs up right after sending it
 						in.GoneClient.Store(r.Intn(4) == 0)
-						c, b := in.PostAlerts(pa)
+						var c int
+						var b string
+						if r.Intn(6) == 0 {
+							// the update travels in one batch with somebody else's alert that does not validate (end before
+							// start): the request is answered 400, the valid update is stored all the same ("best effort")
+							bs, be := now.Add(time.Hour), now.Add(30*time.Minute)
+							c, b = in.PostAlerts(sim.PostableAlert{Labels: model.Labels{"alertname": "Invalid", "seq": p.Ann["v"]}, StartsAt: &bs, EndsAt: &be}, pa)
+							if c == 400 {
+								c = 200
+								sub.Count("updates_sent_in_a_batch_with_an_invalid_alert", 1)
+							}
+						} else {
+							c, b = in.PostAlerts(pa)
+						}
 						in.GoneClient.Store(false)
 						if c != 200 {
 							t.Fatalf("post: %d %s", c, b)
@@ -373,4 +386,43 @@ func TestUpdatesDuringReload(t *testing.T) {
 		os.RemoveAll(dir)
 		sub.Case(vf.Digest(i), during.Load() >= 3)
 	}
+}
+
+// refireThenResolveDuringSweep: a group is emptied by its resolved notification (destroyed); the maintenance
+// sweep that finds it is held between its destroyed-check and the removal from the map; inside that window the
+// alert fires again (ingestion puts a fresh group in the destroyed one's place), and after the sweep has
+// finished the alert is resolved again. The group that holds the alert must get that last version too: if
+// the sweep removed the fresh group from the map instead of the destroyed one, the resolve lands in yet another
+// group and the orphan keeps notifying the stale firing version.
+func refireThenResolveDuringSweep(r *rand.Rand) *scen.Scenario {
+	gw := gen.Pick(r, []time.Duration{time.Second, 5 * time.Second})
+	gi := gen.Pick(r, []time.Duration{5 * time.Second, 20 * time.Second})
+	ri := 10 * time.Minute
+	gb := []string{"alertname"}
+	cfg := &scen.Config{ResolveTimeout: 5 * time.Minute,
+		Route:     &model.RouteSpec{Receiver: "r0", GroupBy: &gb, GroupWait: &gw, GroupInterval: &gi, RepeatInterval: &ri},
+		Receivers: []scen.Receiver{{Name: "r0", Integs: []scen.Integ{{SendResolved: true}}}}}
+	s := &scen.Scenario{Config: cfg, Duration: 12 * time.Minute, DispatchMaint: time.Second,
+		Yields: []scen.YieldRule{{Point: "maint.beforeDelete", Sleep: gen.Pick(r, []time.Duration{2 * time.Second, 3500 * time.Millisecond}), Prob: 1}}}
+	l1 := model.Labels{"alertname": "A", "sev": "crit"}
+	t0 := time.Duration(1+r.Intn(20))*time.Second + time.Duration(1+r.Intn(998))*time.Millisecond
+	far := 30 * time.Minute
+	zero := time.Duration(0)
+	s.Ops = append(s.Ops, scen.Op{At: t0, Kind: "alerts", Alerts: []scen.PostSpec{{Labels: l1, Ann: model.Labels{"v": "1"}, EndOff: &far}}})
+	k := 1 + r.Intn(2)
+	resolveAt := t0 + gw + time.Duration(k)*gi + gi/2
+	s.Ops = append(s.Ops, scen.Op{At: resolveAt, Kind: "alerts", Alerts: []scen.PostSpec{{Labels: l1, Ann: model.Labels{"v": "2"}, EndOff: &zero}}})
+	tick := t0 + gw + time.Duration(k+1)*gi // the flush that reports the resolution and destroys the group
+	refire := tick.Truncate(time.Second) + time.Second + gen.Pick(r, []time.Duration{300 * time.Millisecond, 900 * time.Millisecond, 1700 * time.Millisecond})
+	s.Ops = append(s.Ops, scen.Op{At: refire, Kind: "alerts", Alerts: []scen.PostSpec{{Labels: l1, Ann: model.Labels{"v": "3"}, EndOff: &far}}})
+	// after the held sweep has finished (at most 4.5 s after the tick): the last version, a resolve
+	s.Ops = append(s.Ops, scen.Op{At: refire + gen.Pick(r, []time.Duration{5 * time.Second, 9 * time.Second, 40 * time.Second}), Kind: "alerts", Alerts: []scen.PostSpec{{Labels: l1, Ann: model.Labels{"v": "4"}, EndOff: &zero}}})
+	return s
+}
+
+func TestRefireThenResolveDuringSweep(t *testing.T) {
+	sub := vf.Cur().Sub("refire-then-resolve-during-sweep", "targeted, with a yield hook: a group destroyed by its resolved notification is found by the maintenance sweep, which is held 2-3.5 s before it removes the map entry; the alert fires again inside that window and is resolved again after it; for the following ten minutes no notification may list the alert as firing after the last resolve has been processed, and the resolution must be reported (checkers: listed-firing alerts were firing at the flush tick, owed resolutions are reported, obligations); non-trivial = some resolved alert was listed; distinct by (seed, attempts, counters)", 10)
+	ck := map[string]sysrun.Checker{"resolved-reporting": oracle.ResolvedReporting, "resolved-promptly": oracle.ResolvedPromptly, "obligations": oracle.Obligations}
+	sysrun.Run(t, "C14", sub, sysrun.Family{Name: "sweep", Quick: 60, Thorough: 3000, Gen: refireThenResolveDuringSweep,
+		NonTrivial: func(c map[string]int64) bool { return c["resolved_listed"] > 0 }}, ck)
 }
